@@ -529,7 +529,10 @@ def _instrument(rng, rec):
         elif rec.get("shape") == "region":
             for x in v["v"]:
                 if x["k"] in ("list", "tuple"):
-                    x["k"] = rng.choice(["flist", "ftuple", "fseq", "list"])
+                    # a one-column region whose only item is neither list, tuple nor Vector is read
+                    # as a flat list of cell values (the item itself would be stored): keep such
+                    # items list/tuple subclasses
+                    x["k"] = rng.choice(["flist", "ftuple", "fseq", "list"] if len(v["v"]) > 1 else ["flist", "ftuple", "list"])
             if rng.random() < 0.5:
                 v["outer"] = rng.choice(["flist", "ftuple"])
     elif op == "rencols":
